@@ -24,6 +24,7 @@ def c05Spec (kind : String) (data : Obj) : Option Str :=
     let o ← parseOptNat off; let l ← parseOptNat lim; let c ← parseOptNat cols
     let lo ← lo.toInt?; let hi ← hi.toInt?
     pure (C05.specTable (rangeInts lo hi) o l c)
+  | ["expect", want] => unhex? want.toList             -- expected output computed by the harness's own reference loop
   | ["else-interrupt", want] => unhex? want.toList     -- expected output computed by the harness's own reference loop
   | ["nested", ao, ai, ko, ki] => do
     let ao ← ao.toNat?; let ai ← ai.toNat?; let ko ← ko.toNat?; let ki ← ki.toNat?
